@@ -267,6 +267,29 @@ def run(tier: str, seed: int) -> Report:
     if res.violated != "M_ContractHolds":
         raise Machinery(f"negative control did not violate M1 (got {res.violated})")
 
+    # the design layer refines the lock core (UdsClientLockInd) whose INDUCTIVE invariant Apalache discharges for
+    # behaviours of any length, 6 callers, every caller cancellable at every await point (DESIGN 9.10)
+    res = tlc.run_tlc("MC_UdsClientMutexRefine", "MC_UdsClientMutexRefine.cfg", timeout=900)
+    rep.add_tlc(res, "MC_UdsClientMutexRefine (design refines the lock core; IndInv on reachable states)")
+    if not res.ok:
+        rep.violate(f"design/refinement/{res.violated}", {"where": "UdsClientMutex -> UdsClientLockInd"}, {"cex": res.cex[-8:]})
+    apa = []
+    for label, mod, init, inv, length, want_ok in [
+        ("base: Init => IndInv", "MC_UdsClientLockInd", "Init", "IndInv", 0, True),
+        ("step: IndInv /\\ Next => IndInv'", "MC_UdsClientLockInd", "IndInit", "IndInv", 1, True),
+        ("use: IndInv => M1 /\\ M3", "MC_UdsClientLockInd", "IndInit", "Safety", 0, True),
+        ("negative control: lock released in the pending loop breaks the step", "MC_UdsClientLockInd_dev", "IndInit", "IndInv", 1, False),
+    ]:
+        a = tlc.run_apalache(mod, init=init, inv=inv, length=length, timeout=1200)
+        apa.append({"obligation": label, "module": mod, "init": init, "inv": inv, "length": length,
+                    "outcome": "NoError" if a.ok else "Error", "wall_s": round(a.wall_s, 1)})
+        if want_ok and not a.ok:
+            rep.violate("design/inductive-invariant", {"where": "UdsClientLockInd", "obligation": label}, {"out": a.out[-1500:]})
+        if not want_ok and a.ok:
+            raise Machinery(f"apalache negative control did not fail: {label}")
+    rep.extra["apalache"] = {"version": "0.58.0", "callers": 6, "obligations": apa,
+                             "meaning": "inductive invariant of the lock core: holds for behaviours of ANY length"}
+
     traces: list[dict[str, Any]] = []
     seen: set[str] = set()
 
